@@ -31,12 +31,16 @@ import (
 	"errors"
 	"fmt"
 	"os"
+	"os/exec"
 	"path/filepath"
+	"regexp"
 	"runtime"
 	"sort"
+	"strconv"
 	"strings"
 	"sync"
 	"sync/atomic"
+	"syscall"
 	"time"
 
 	"github.com/risor-io/risor"
@@ -564,6 +568,9 @@ func runCase(c *caseData) (o obs) {
 
 	release := make(chan struct{})
 	defer close(release)
+	if sh.Exec {
+		defer killChildren(c.Src)
+	}
 	hostblock := object.NewBuiltin("hostblock", func(_ context.Context, args ...object.Object) object.Object {
 		<-release // host code that ignores the context; released when the case is over
 		return object.Nil
@@ -750,7 +757,9 @@ func judge(c *caseData, o *obs) []verdict {
 		vs = append(vs, verdict{"ended-by-itself:" + c.shapeTag(), head + "the workload is built never to terminate, but risor.Eval returned " + what + " before any cancellation"})
 		return vs
 	}
-	if !o.ErrIs && !strings.HasPrefix(o.ErrText, "GO PANIC: ") {
+	if sh != nil && sh.Exec && !o.ErrNil {
+		// any error will do here: see shape.Exec
+	} else if !o.ErrIs && !strings.HasPrefix(o.ErrText, "GO PANIC: ") {
 		sym := "other-error"
 		switch {
 		case o.ErrNil:
@@ -807,6 +816,10 @@ type instant struct {
 
 func instantsFor(sh *shape) []instant {
 	var out []instant
+	if sh.Exec {
+		// the child must be up (and have installed its signal dispositions) when the context ends
+		return []instant{{Mode: "cancel", Delay: 200000}, {Mode: "deadline", Delay: 300000}}
+	}
 	if sh.Kind == "tick" {
 		ks := ticksK
 		if sh.SelfEnds {
@@ -837,7 +850,44 @@ func mk(sh *shape, tail string, chain []string, mid string, in instant, procs in
 	}
 	c := caseData{Shape: sh.Name, Tail: tail, Chain: chain, Mid: mid, Mode: in.Mode, K: in.K, DelayUS: in.Delay, Procs: procs}
 	c.Src = render(sh, tail, chain, mid, false)
+	if sh.Exec {
+		// a duration that is unique to the case, so that its children can be found and removed
+		// afterwards without touching those of a case running in another worker
+		execCounter++
+		marker := fmt.Sprintf("25.%04d", execCounter)
+		c.Src = strings.ReplaceAll(strings.ReplaceAll(c.Src, "sleep 25", "sleep "+marker), `["25"]`, `["`+marker+`"]`)
+	}
 	return c
+}
+
+var execCounter int
+
+var execMarkerRe = regexp.MustCompile(`25\.\d{4}`)
+
+// killChildren removes what is left of the processes a case started (found by the case's unique sleep
+// duration in their command line): the orphaned grandchild of a killed shell, children that ignore the
+// signal they were sent.
+func killChildren(src string) int {
+	marker := execMarkerRe.FindString(src)
+	if marker == "" {
+		return 0
+	}
+	n := 0
+	ents, _ := os.ReadDir("/proc")
+	for _, e := range ents {
+		pid, err := strconv.Atoi(e.Name())
+		if err != nil || pid == os.Getpid() {
+			continue
+		}
+		b, err := os.ReadFile("/proc/" + e.Name() + "/cmdline")
+		if err != nil || !strings.Contains(string(b), marker) {
+			continue
+		}
+		if syscall.Kill(pid, syscall.SIGKILL) == nil {
+			n++
+		}
+	}
+	return n
 }
 
 // mkReuse: the same, as a later invocation on a reused VM
@@ -846,6 +896,16 @@ func mkReuse(rf *reuseForm, sh *shape, tail string, chain []string, mid string, 
 	c.Reuse = rf.Name
 	c.Src = render(sh, c.Tail, chain, mid, rf.Entry)
 	return c
+}
+
+func execAvailable() bool {
+	if _, err := exec.LookPath("sh"); err != nil {
+		return false
+	}
+	if _, err := exec.LookPath("sleep"); err != nil {
+		return false
+	}
+	return exec.Command("sh", "-c", "trap '' TERM; sleep 0").Run() == nil
 }
 
 func chainsOfDepth(n int) [][]string {
@@ -877,6 +937,23 @@ func plan(d *mon.Driver) []caseData {
 				cs = append(cs, mk(sh, t, nil, "exit", in, 0))
 			}
 		}
+	}
+	// waiting in exec() for a child process (only where a shell and sleep can be run at all)
+	if execAvailable() {
+		for i := range execShapes {
+			sh := &execShapes[i]
+			tails := []string{"loop"}
+			if d.Thorough() || sh.Name == "exec-child-ignores-sigterm" || sh.Name == "cb-try-exec-child-ignores-sigterm" {
+				tails = []string{"loop", "end"}
+			}
+			for _, t := range tails {
+				for _, in := range instantsFor(sh) {
+					cs = append(cs, mk(sh, t, nil, "exit", in, 0))
+				}
+			}
+		}
+	} else {
+		d.Inconclusive("sh / sleep cannot be executed here: the exec shapes were skipped")
 	}
 	if d.Thorough() {
 		// every shape x every chain of depth 1..3 x every instant x what the intermediate levels do
